@@ -269,7 +269,7 @@ ADDENDA2 = {
     "C04": " D6.tree as in C01 (F86). Added: D11.restart (as C01-D10, F88: the transposed solve behind the weights), D12.vandermonde (entries of the Kronecker 1-D matrices are values of the basis evaluate() uses), D13.kinds (kind inference: nodal weights pair with nodal values, basis integrals with hierarchical coefficients in every integrate()).",
     "C06": " Added: D6 orders precision(17) before every floating point field; D12.nodes (Sequence node cache covers every converted index set); D13.perdim (per-dimension members rebuilt only from a non-empty set, F85).",
     "C07": " Added: D9.norm for the Sequence grid (NaN-seeded running maximum, F74); D10.alloutputs (monotone accumulation over outputs); D11.limits (C08-D1.store shared).",
-    "C09": " Added: D10.keep (registrations with delivered samples survive a request for candidates, F81); D11.nodes; D4.relations now evaluates the relations getSubGraph walks (F24 fixed).",
+    "C09": " Added: D10.keep (registrations with delivered samples survive a request for candidates, F81); D11.nodes; D12.restrict (waiting samples of a copy keep the copied output range, shared with C11); D2 also asks that waiting samples are subtracted from the candidates (F91); D4.relations now evaluates the relations getSubGraph walks (F24 fixed).",
     "C11": " Added: D9.moved (never-null owning members re-seated by user-provided moves, F78); D8 also decides the first output (F79).",
     "C14": " Added: D15.family, D16.output (propositional check that output == -1 cannot reach a Global routine), D17.rawlen, D18.nopoints, D19.modes (F72-F80).",
     "C15": " Added: the snapshot test is reached in every iteration (per-iteration must-pass); D6.forward (the sampling form is forwarded unchanged between instantiations).",
